@@ -14,6 +14,9 @@
 #ifndef NTHREADS
 # define NTHREADS 2
 #endif
+#ifndef TWICE
+# define TWICE 0
+#endif
 
 static int  calls[11];
 static int  steps_done;         /* ghost: number of init steps completed */
@@ -45,6 +48,9 @@ static int ret0 = -7, ret1 = -7, ret2 = -7;
     {                                                                                               \
         int r = sodium_init();                                                                      \
         ret##n = r;                                                                                 \
+        if (TWICE) {                                                                                \
+            CHECK(sodium_init() == 1, "a second call from the same thread returns 1");              \
+        }                                                                                           \
         CHECK(r == 0 || r == 1, "sodium_init returns 0 or 1");                                      \
         CHECK(steps_done == 11, "no thread returns from sodium_init before initialisation is complete"); \
         CHECK(implementation_ptr == 11, "after sodium_init returns the implementation table is final"); \
